@@ -163,6 +163,13 @@ func ImportSnapshot(nhConfig config.NodeHostConfig,
 	if !ok {
 		return ErrIncompleteSnapshot
 	}
+	ok, err = hasAllExternalFiles(oldss, srcDir, fs)
+	if err != nil {
+		return err
+	}
+	if !ok {
+		return ErrIncompleteSnapshot
+	}
 	if err := checkMembers(oldss.Membership, memberNodes); err != nil {
 		return err
 	}
@@ -271,6 +278,29 @@ func isCompleteSnapshotImage(ssfp string,
 		return false, err
 	}
 	return bytes.Equal(checksum, ss.Checksum), nil
+}
+
+// hasAllExternalFiles returns whether every external file recorded in the
+// snapshot's metadata is available in the exported snapshot directory with its
+// recorded size. It is checked before anything is changed on the importing
+// host, copySnapshot would otherwise fail after the existing snapshots have
+// already been removed.
+func hasAllExternalFiles(ss pb.Snapshot,
+	srcDir string, fs vfs.IFS) (bool, error) {
+	for _, file := range ss.Files {
+		fp := fs.PathJoin(srcDir, fs.PathBase(file.Filepath))
+		fi, err := fs.Stat(fp)
+		if err != nil {
+			if vfs.IsNotExist(err) {
+				return false, nil
+			}
+			return false, err
+		}
+		if fi.IsDir() || uint64(fi.Size()) != file.FileSize {
+			return false, nil
+		}
+	}
+	return true, nil
 }
 
 func getSnapshotFilepath(dir string, fs vfs.IFS) (string, error) {
